@@ -94,3 +94,15 @@ CHECKS["C18"] = dict(
         "a data race is only observed if it occurs in an execution (thorough tier, -race build)",
     ],
 )
+
+CHECKS["C03"] = dict(
+    parts=[dict(pkg="net", run="^TestC03_")], level="exploration",
+    quick=dict(shards=8, checks=400, timeout=900),
+    thorough=dict(shards=16, checks=6000, timeout=3000),
+    assumptions=[
+        "one sender and one receiver goroutine per channel end (documented single-reader discipline)",
+        "empty messages are filtered from both sides (open/close frames drop empty payloads, data frames deliver them)",
+        "the harness waits with wait-then-poll order; the public ReceiveAsync/ReceiveWait pair used poll-then-wait can miss a wakeup because of the dependency's byte queue (see DESIGN.md)",
+        "a case that does not finish within 60 s is reported as a violation (both ends run independent sender/receiver goroutines, so no user-level wait cycle exists)",
+    ],
+)
